@@ -153,7 +153,7 @@ def solve_games(ctx, inp, games, model, limit):
                               expect=exp, inp=dict(inp, game=name, prune=prune), suite="corr.genfile.solve")
 
 
-def check_params(ctx, p, model=None, limit=4.0):
+def check_params(ctx, p, model=None, limit=4.0, solve=True):
     inp = dict(p)
     argv = [f"--seed={p['seed']}", f"--width={p['w']}", f"--length={p['l']}", f"--max_reward={p['m']}",
             f"--prob_robot_break={p['pr']!r}", f"--prob_light_break={p['pl']!r}", f"--prob_tile_break={p['pt']!r}",
@@ -189,7 +189,7 @@ def check_params(ctx, p, model=None, limit=4.0):
         model.add("gen", {"num": "float", "L": L, "W": W, "board": {"moves": mv, "rewards": rw, "loose": ls},
                           "ptile": fbits(p["pt"]), "probot": fbits(p["pr"]), "plight": fbits(p["pl"])},
                   expect=d, inp=inp, suite="corr.genfile", cmp=cmp_gen)
-    if good:
+    if good and solve:
         games = {k: dict(g, _meta={"family": "board"}) for k, g in d.items()}
         solve_games(ctx, inp, games, model, limit)
 
@@ -216,6 +216,18 @@ def run(ctx, model=None):
     for (l, w) in big:
         p = {"seed": 47, "w": w, "l": l, "m": 6, "pr": 0.1, "pl": 0.1, "pt": 0.1, "plo": 0.3, "fd": False}
         check_params(ctx, p, model if l * w <= 50 else None, limit=10.0 if ctx.quick() else 120.0)
+    # extreme but accepted probabilities and wide / long boards: load + validation + properness only
+    # (value iteration on them is slow but irrelevant to these clauses)
+    EXT = [1e-7, 1 - 1e-7, 5e-324, 1 - 2 ** -53, 1 / 3, 2 / 3]
+    for k in range(8 if ctx.quick() else 60):
+        p = {"seed": rng.randrange(50), "w": rng.randint(1, 3), "l": rng.randint(1, 3), "m": rng.choice([1, 6]),
+             "pr": rng.choice(EXT), "pl": rng.choice(EXT), "pt": rng.choice(EXT), "plo": rng.choice(EXT + [0.5]),
+             "fd": rng.random() < 0.5}
+        check_params(ctx, p, model, solve=False)
+    for (l, w) in ([(1, 14), (2, 13), (14, 1)] if ctx.quick() else [(1, 14), (2, 13), (14, 1), (1, 40), (3, 25), (60, 2)]):
+        for fd in (False, True):
+            p = {"seed": 7, "w": w, "l": l, "m": 6, "pr": 0.1, "pl": 0.1, "pt": 0.1, "plo": 0.3, "fd": fd}
+            check_params(ctx, p, model if l * w <= 30 else None, solve=False)
     # manual entry point
     sg = repo("stochastic_game_from_roborta_board")
     for _ in range(3 if ctx.quick() else 40):
